@@ -6,6 +6,7 @@ call forms, on the real engine, against exact hyper-dual derivatives (vf.refsem)
 """
 from __future__ import annotations
 
+import itertools
 import math
 
 from vf import refsem as R
@@ -497,6 +498,8 @@ def tasks(tier, seed):
     t.append(dict(part='findiff'))
     t.append(dict(part='named_api'))
     t.append(dict(part='integrate'))
+    for pi in range(len(pool())):
+        t.append(dict(part='function_history', pool=pi))
     t.append(dict(part='shared_av'))
     t.append(dict(part='nodb'))
     for i in range(3):
@@ -551,6 +554,8 @@ def run_task(task):
             _named_api(rec)
         elif part == 'integrate':
             _integrate_derivatives(rec)
+        elif part == 'function_history':
+            _function_history(task, rec)
         elif part == 'shared_av':
             for i, term in enumerate(shared_av_terms()):
                 check_formula(term, rec, f'shared-av#{i}', 'logit-with-a-variable-shared-by-availability-and-utility',
@@ -564,6 +569,110 @@ def run_task(task):
     return rec.result()
 
 
+
+
+FH_OPS = ['fa', 'fb', 'bad', 'gd', 'gn']
+
+
+def _function_history(task, rec):
+    """Histories on one formula and the function made from it (create_function): every sequence of three operations over
+    {call the function at point a, at point b, call it with a vector that is too long (refused), evaluate the formula with
+    a dictionary of values and the numbering in place, evaluate it without values}.  Every accepted call must report value,
+    gradient, Hessian and BHHH of the right shape and equal to the reference at the point it was asked for (for the
+    evaluation without values: at one of the points supplied so far or the declared values)."""
+    import numpy as np
+    from biogeme.exceptions import BiogemeError
+    from vf.engine import make_db
+    term = pool()[task['pool']]
+    free = sorted(b for b in R.leaves(term, 'beta') if b in G.FREE)
+    n = len(free)
+    base = dict(G.PARAMS)
+    pts = {'init': dict(base), 'a': dict(base), 'b': dict(base), 'c': dict(base)}
+    for k, nm in enumerate(free):
+        pts['a'][nm] = base[nm] + 0.125 * (k + 1)
+        pts['b'][nm] = base[nm] - 0.0625 * (k + 2)
+        pts['c'][nm] = base[nm] * 0.5 + 0.25
+    refs = {}
+    rows_ok = None
+    for pname, full in pts.items():
+        rr = ref_rows(term, full, free, rec)
+        idx = {r[0] for r in rr}
+        rows_ok = idx if rows_ok is None else rows_ok & idx
+    if not rows_ok:
+        rec.count('function_history_no_common_valid_row')
+        return
+    keep = sorted(rows_ok)
+    for pname, full in pts.items():
+        rr = [r for r in ref_rows(term, full, free, rec) if r[0] in rows_ok]
+        refs[pname] = (sum(r[2] for r in rr), _sum_vec([r[3] for r in rr], n), _sum_mat([r[4] for r in rr], n),
+                       _sum_mat([[[gi * gj for gj in r[3]] for gi in r[3]] for r in rr], n))
+    data = [G.ROWS[i] for i in keep]
+
+    def judge(hist, step, what, res, candidates):
+        f = float(res.function)
+        g = np.asarray(res.gradient, dtype=float)
+        h = np.asarray(res.hessian, dtype=float)
+        bm = np.asarray(res.bhhh, dtype=float)
+        case = dict(part='function_history', pool=task['pool'], history=list(hist[:step + 1]))
+        if g.shape != (n,) or h.shape != (n, n) or bm.shape != (n, n):
+            rec.violation(f'C02|derivatives-of-wrong-shape|function-history:{what}',
+                          f'history {hist[:step + 1]}: shapes {g.shape}, {h.shape}, {bm.shape} for the {n} free parameters {free}', case)
+            return False
+        for cand in candidates:
+            rf, rg, rh, rb = refs[cand]
+            if dclose(f, rf) and _cmp_vec(list(g), rg) and _cmp_mat(h.tolist(), rh) and _cmp_mat(bm.tolist(), rb):
+                return True
+        rec.violation(f'C02|function-output-not-the-derivatives-at-the-requested-point|function-history:{what}',
+                      f'history {hist[:step + 1]}: value {f}, gradient {g.tolist()} are not those of the reference at {candidates} '
+                      f'(e.g. {refs[candidates[0]][0]}, {refs[candidates[0]][1]})', case)
+        return False
+
+    for hist in itertools.product(FH_OPS, repeat=3):
+        if not any(o in ('bad', 'gd', 'gn') for o in hist) or hist[-1] == 'bad':
+            continue
+        try:
+            expr = R.Builder(G.betas_spec()).build(term)
+            db = make_db(data, G.COLUMNS)
+            fct = expr.create_function(database=db, number_of_draws=10, gradient=True, hessian=True, bhhh=True)
+            names = list(expr.id_manager.free_betas.names)
+        except Exception as e:
+            rec.violation(f'C02|raised-{type(e).__name__}|function-history:create', str(e)[:200], dict(part='function_history', pool=task['pool']))
+            return
+        supplied = ['init']
+        key = ('function_history', task['pool'], hist)
+        ok = True
+        for step, op in enumerate(hist):
+            try:
+                if op in ('fa', 'fb'):
+                    p = op[1]
+                    res = fct(np.array([pts[p][nm] for nm in names], dtype=float))
+                    supplied.append(p)
+                    ok = judge(hist, step, 'function-call', res.function_output if hasattr(res, 'function_output') else res, [p]) and ok
+                elif op == 'bad':
+                    try:
+                        fct(np.array([pts['c'][nm] for nm in names] + [0.5], dtype=float))
+                        rec.count('function_history_too_long_vector_accepted')
+                    except BiogemeError:
+                        pass
+                elif op == 'gd':
+                    res = expr.get_value_and_derivatives(betas={nm: pts['c'][nm] for nm in names}, database=db, gradient=True, hessian=True,
+                                                         bhhh=True, aggregation=True, prepare_ids=False)
+                    supplied.append('c')
+                    ok = judge(hist, step, 'formula-with-dictionary', res, ['c']) and ok
+                else:
+                    res = expr.get_value_and_derivatives(database=db, gradient=True, hessian=True, bhhh=True, aggregation=True,
+                                                         prepare_ids=False)
+                    ok = judge(hist, step, 'formula-without-values', res, list(dict.fromkeys(reversed(supplied)))) and ok
+            except Exception as e:
+                rec.violation(f'C02|raised-{type(e).__name__}|function-history:{op}', f'history {hist[:step + 1]}: {str(e)[:200]}',
+                              dict(part='function_history', pool=task['pool'], history=list(hist[:step + 1])))
+                ok = False
+                from vf.engine import is_engine_error
+                if is_engine_error(e):
+                    rec.retire = True
+                    return
+                break
+        rec.case(key, (task['pool'], hist, ok), outcome=('function-history', ok))
 
 
 def _integrate_derivatives(rec):
@@ -813,6 +922,8 @@ def replay(case):
             _named_api(rec)
         elif part == 'integrate':
             _integrate_derivatives(rec)
+        elif part == 'function_history':
+            _function_history(case, rec)
         elif part == 'shared_av':
             for i, term in enumerate(shared_av_terms()):
                 check_formula(term, rec, f'shared-av#{i}', 'logit-with-a-variable-shared-by-availability-and-utility',
